@@ -188,15 +188,19 @@ func runDV(rng *rand.Rand) (viols []viol, st runStats) {
 		return r
 	}
 	var d reactive.DerivedVariable[int]
+	var dInit []int // optional initial value of the derived variable; it must be replaced by compute(inputs) at once
+	if rng.Intn(3) == 0 {
+		dInit = []int{555}
+	}
 	switch n {
 	case 1:
-		d = reactive.NewDerivedVariable[int](func(_ int, a int) int { return f(a) }, in[0])
+		d = reactive.NewDerivedVariable[int](func(_ int, a int) int { return f(a) }, in[0], dInit...)
 	case 2:
-		d = reactive.NewDerivedVariable2[int](func(_ int, a, b int) int { return f(a, b) }, in[0], in[1])
+		d = reactive.NewDerivedVariable2[int](func(_ int, a, b int) int { return f(a, b) }, in[0], in[1], dInit...)
 	case 3:
-		d = reactive.NewDerivedVariable3[int](func(_ int, a, b, c int) int { return f(a, b, c) }, in[0], in[1], in[2])
+		d = reactive.NewDerivedVariable3[int](func(_ int, a, b, c int) int { return f(a, b, c) }, in[0], in[1], in[2], dInit...)
 	case 4:
-		d = reactive.NewDerivedVariable4[int](func(_ int, a, b, c, e int) int { return f(a, b, c, e) }, in[0], in[1], in[2], in[3])
+		d = reactive.NewDerivedVariable4[int](func(_ int, a, b, c, e int) int { return f(a, b, c, e) }, in[0], in[1], in[2], in[3], dInit...)
 	}
 	inh := reactive.NewVariable[int]()
 	inh.InheritFrom(d)
@@ -204,14 +208,26 @@ func runDV(rng *rand.Rand) (viols []viol, st runStats) {
 	dvf := reactive.NewVariable[int]()
 	dvf.DeriveValueFrom(second)
 	tog := reactive.NewVariable[int]()
+	if rng.Intn(2) == 0 {
+		tog.Init(777) // the inheriting variable already holds a value; a zero source must overwrite it, too
+		st.add("inherit_target_nonzero_at_attach", 1)
+	}
 	unsubTog := tog.InheritFrom(d)
+	for i := 0; i < n; i++ {
+		if in[i].Get() != 0 {
+			st.add("dv_inputs_nonzero_at_creation", 1)
+		} else {
+			st.add("dv_inputs_zero_at_creation", 1)
+		}
+	}
 
 	type step struct{ kind, val, y int }
 	overl := 0
-	// every round ends in a quiescent point (all writers joined) at which the oracle is evaluated
-	for r := 0; r < rounds; r++ {
+	// every round ends in a quiescent point (all writers joined) at which the oracle is evaluated; round -1 is the
+	// state right after construction (initial-value paths: inputs / sources that were already set)
+	for r := -1; r < rounds; r++ {
 		g := newGroup()
-		for i := 0; i < n; i++ {
+		for i := 0; i < n && r >= 0; i++ {
 			for w := 0; w < wPer; w++ {
 				plan := make([]step, 1+rng.Intn(3))
 				for k := range plan {
@@ -233,7 +249,7 @@ func runDV(rng *rand.Rand) (viols []viol, st runStats) {
 				})
 			}
 		}
-		if rng.Intn(3) == 0 {
+		if r >= 0 && rng.Intn(3) == 0 {
 			y := rng.Intn(10)
 			st.structural++
 			g.spawn("inheritance toggler", func() {
@@ -382,6 +398,17 @@ func runDSet(rng *rand.Rand) (viols []viol, st runStats) {
 		}
 		return map[string]any{"sources": ss, "derived": mstr(maskOf(D)), "want": mstr(want())}
 	}
+	for i := range src {
+		if inherited[i] && maskOf(src[i]) != 0 {
+			st.add("dset_sources_nonempty_at_attach", 1)
+		} else if inherited[i] {
+			st.add("dset_sources_empty_at_attach", 1)
+		}
+	}
+	if got, w := maskOf(D), want(); got != w {
+		st.nontrivial = true
+		return []viol{{"derivedset/diverges-after/inherit-source-at-creation", fmt.Sprintf("right after InheritFrom of sources that already held elements the DerivedSet holds %s but the union of its inherited sources is %s", mstr(got), mstr(w)), state()}}, st
+	}
 	if seq {
 		var hist []any
 		replaced := false
@@ -495,6 +522,15 @@ func runSubtract(rng *rand.Rand) (viols []viol, st runStats) {
 		}
 		return map[string]any{"source_then_others": ss, "result": mstr(maskOf(R)), "want": mstr(want())}
 	}
+	for i := range sets {
+		if maskOf(sets[i]) != 0 {
+			st.add("subtract_sets_nonempty_at_creation", 1)
+		}
+	}
+	if got, w := maskOf(R), want(); got != w {
+		st.nontrivial = true
+		return []viol{{"subtractreactive/diverges-at-creation", fmt.Sprintf("right after SubtractReactive on sets that already held elements the result holds %s, source minus others is %s", mstr(got), mstr(w)), state()}}, st
+	}
 	if seq {
 		var hist []any
 		replaced := false
@@ -557,43 +593,118 @@ func runSubtract(rng *rand.Rand) (viols []viol, st runStats) {
 
 // ============================================================== Counter
 
+// counterCond is one member of the seeded condition family; zeroTrue: the condition holds for the zero value.
+func counterCond(rng *rand.Rand) (name string, cond func(int) bool, isDefault bool) {
+	k := rng.Intn(4)
+	switch rng.Intn(8) {
+	case 0, 1:
+		return "default-nonzero", func(v int) bool { return v != 0 }, true
+	case 2:
+		return fmt.Sprintf("v>%d", k), func(v int) bool { return v > k }, false
+	case 3:
+		return fmt.Sprintf("v<%d", k+1), func(v int) bool { return v < k+1 }, false // true for zero
+	case 4:
+		return "even", func(v int) bool { return v%2 == 0 }, false // true for zero
+	case 5:
+		return "odd", func(v int) bool { return v%2 == 1 }, false
+	case 6:
+		return "always-true", func(int) bool { return true }, false
+	default:
+		return "always-false", func(int) bool { return false }, false
+	}
+}
+
 func runCounter(rng *rand.Rand) (viols []viol, st runStats) {
-	n := 2 + rng.Intn(5)
-	custom := rng.Intn(2) == 0
+	const maxVal = 6 // values 0..5
+	n := 2 + rng.Intn(6)
 	rounds := 3 + rng.Intn(14)
-	st.shape = fmt.Sprintf("counter/n%d/custom%v", n, custom)
-	cond := func(v int) bool { return v != 0 }
+	name, cond, isDefault := counterCond(rng)
+	zeroTrue := cond(0)
+	st.shape = fmt.Sprintf("counter/n%d/%s", n, name)
+	if zeroTrue {
+		st.add("counter_runs_condition_true_for_zero", 1)
+	}
 	var cnt reactive.Counter[int]
-	if custom {
-		cond = func(v int) bool { return v%2 == 1 }
-		cnt = reactive.NewCounter[int](cond)
-	} else {
+	if isDefault {
 		cnt = reactive.NewCounter[int]()
+	} else {
+		cnt = reactive.NewCounter[int](cond)
+	}
+	// pickVal returns a value of the requested class: 0 zero, 1 non-zero satisfying, 2 non-zero not satisfying
+	pickVal := func(class int) int {
+		if class == 0 {
+			return 0
+		}
+		for try := 0; try < 20; try++ {
+			if v := 1 + rng.Intn(maxVal-1); cond(v) == (class == 1) {
+				return v
+			}
+		}
+		return 1 + rng.Intn(maxVal-1) // class does not exist for this condition
 	}
 	in := make([]reactive.Variable[int], n)
 	monitored := make([]bool, n)
-	var late []int
+	// monitorNow attaches an input at a quiescent point, i.e. with a known value: the initial-value path of Monitor
+	monitorNow := func(i int) {
+		v := in[i].Get()
+		switch {
+		case v == 0 && cond(v):
+			st.add("counter_inputs_zero_and_satisfying_at_monitor", 1)
+		case v == 0:
+			st.add("counter_inputs_zero_not_satisfying_at_monitor", 1)
+		case cond(v):
+			st.add("counter_inputs_nonzero_satisfying_at_monitor", 1)
+		default:
+			st.add("counter_inputs_nonzero_not_satisfying_at_monitor", 1)
+		}
+		cnt.Monitor(in[i])
+		monitored[i] = true
+		st.structural++
+	}
+	var late, between []int
 	for i := range in {
 		in[i] = reactive.NewVariable[int]()
-		if rng.Intn(2) == 0 {
-			in[i].Init(rng.Intn(4))
+		if v := pickVal(rng.Intn(3)); v != 0 {
+			in[i].Init(v)
 		}
-		switch rng.Intn(4) {
+	}
+	check := func(when string) bool {
+		want := 0
+		var vals []string
+		for i := range in {
+			v := in[i].Get()
+			vals = append(vals, fmt.Sprintf("input %d monitored=%v value=%d satisfies=%v", i, monitored[i], v, cond(v)))
+			if monitored[i] && cond(v) {
+				want++
+			}
+		}
+		if got := cnt.Get(); got != want {
+			viols = []viol{{"counter/diverges", fmt.Sprintf("Counter(condition %s) = %d but %d monitored inputs satisfy the condition (%s)", name, got, want, when), map[string]any{"condition": name, "condition_true_for_zero": zeroTrue, "inputs": vals}}}
+			return false
+		}
+		return true
+	}
+	for i := range in {
+		switch rng.Intn(6) {
 		case 0: // never monitored
 		case 1:
-			late = append(late, i)
+			late = append(late, i) // monitored while its writer is running
+		case 2:
+			between = append(between, i) // monitored at a later quiescent point
 		default:
-			cnt.Monitor(in[i])
-			monitored[i] = true
+			monitorNow(i)
+			if !check(fmt.Sprintf("right after Monitor(input %d), before any write", i)) {
+				return
+			}
 		}
 	}
 	overl := 0
 	for r := 0; r < rounds; r++ {
 		g := newGroup()
 		for i := range in {
-			plan := make([][2]int, 1+rng.Intn(3))
+			plan := make([][2]int, 1+rng.Intn(4))
 			for k := range plan {
-				plan[k] = [2]int{rng.Intn(4), rng.Intn(3)}
+				plan[k] = [2]int{pickVal(rng.Intn(3)), rng.Intn(3)} // moves in and out of the condition, through zero
 			}
 			st.ops += len(plan)
 			v := in[i]
@@ -622,17 +733,16 @@ func runCounter(rng *rand.Rand) (viols []viol, st runStats) {
 		if len(g.pn.rec) > 0 {
 			return nil, st
 		}
-		want := 0
-		var vals []string
-		for i := range in {
-			v := in[i].Get()
-			vals = append(vals, fmt.Sprintf("input %d monitored=%v value=%d", i, monitored[i], v))
-			if monitored[i] && cond(v) {
-				want++
-			}
+		if !check(fmt.Sprintf("after round %d", r)) {
+			return
 		}
-		if got := cnt.Get(); got != want {
-			return []viol{{"counter/diverges", fmt.Sprintf("Counter = %d but %d monitored inputs satisfy the condition (round %d)", got, want, r), vals}}, st
+		if len(between) > 0 && rng.Intn(2) == 0 {
+			i := between[0]
+			between = between[1:]
+			monitorNow(i)
+			if !check(fmt.Sprintf("right after Monitor(input %d) between rounds", i)) {
+				return
+			}
 		}
 	}
 	return
@@ -824,6 +934,14 @@ func runSS[E comparable](k elemKind[E], scenario string, rng *rand.Rand) (viols 
 		}
 		return true
 	}
+	preAdd := func(i int) {
+		if env.w[i].Get() != 0 {
+			st.add("ss_weights_nonzero_at_add", 1)
+		} else {
+			st.add("ss_weights_zero_at_add", 1)
+		}
+		env.ss.Add(k.mk(i))
+	}
 	switch scenario {
 	case "ss-seq":
 		withReplace := rng.Intn(2) == 0
@@ -857,6 +975,14 @@ func runSS[E comparable](k elemKind[E], scenario string, rng *rand.Rand) (viols 
 		own := make([][]int, G)
 		for i := 1; i <= U; i++ {
 			own[i%G] = append(own[i%G], i)
+		}
+		for i := 1; i <= U; i++ {
+			if rng.Intn(2) == 0 {
+				preAdd(i)
+			}
+		}
+		if !roundDone(newGroup(), "initial-adds") {
+			return
 		}
 		for r, rounds := 0, 3+rng.Intn(12); r < rounds; r++ {
 			g := newGroup()
@@ -918,7 +1044,10 @@ func runSS[E comparable](k elemKind[E], scenario string, rng *rand.Rand) (viols 
 	case "ss-dl":
 		// Delete+Add of elements whose weights other goroutines update at the same time
 		for i := 1; i <= U; i++ {
-			env.ss.Add(k.mk(i))
+			preAdd(i)
+		}
+		if !roundDone(newGroup(), "initial-adds") {
+			return
 		}
 		A := 1 + rng.Intn(2)
 		B := 1 + rng.Intn(3)
@@ -1338,7 +1467,7 @@ func run(c *vf.Ctx) {
 		}
 		return
 	}
-	c.SetRule("one evaluation = one run of one scenario (DerivedVariable1-4/InheritFrom/DeriveValueFrom, DerivedSet, SubtractReactive, Counter, SortedSet x4, WaitGroup, EvictionState) on fresh objects: seeded writer goroutines on different inputs plus structural changes (inherit/unsubscribe source, Monitor, add/delete/re-add element, Replace on a source, weight updates of present and removed elements), then the defining function is recomputed from the inputs at quiescence (sequential scenarios: after every step); runs are distinct by construction (run seed); distinct_nontrivial counts runs in which at least two writer goroutines' activity spans overlapped by logical ticks (sequential scenarios: at least 3 effective steps)")
+	c.SetRule("one evaluation = one run of one scenario (DerivedVariable1-4/InheritFrom/DeriveValueFrom, DerivedSet, SubtractReactive, Counter, SortedSet x4, WaitGroup, EvictionState) on fresh objects: seeded writer goroutines on different inputs plus structural changes (inherit/unsubscribe source, Monitor, add/delete/re-add element, Replace on a source, weight updates of present and removed elements), then the defining function is recomputed from the inputs at quiescence (right after construction/attachment with inputs that are already zero / non-zero, after every round of concurrent writes, in sequential scenarios after every step; Counter conditions come from a seeded family incl. conditions that hold for the zero value); runs are distinct by construction (run seed); distinct_nontrivial counts runs in which at least two writer goroutines' activity spans overlapped by logical ticks (sequential scenarios: at least 3 effective steps)")
 	total := c.Pick(30000, 600000)
 	chunk := c.Pick(600, 6000)
 	var jobs []job
@@ -1367,6 +1496,13 @@ func run(c *vf.Ctx) {
 	c.Require("runs:ss-dl", 1)
 	c.Require("runs_race_build", total/5)
 	c.Require("structural_changes", total/4)
+	// initial-value paths must really have been exercised
+	c.Require("counter_runs_condition_true_for_zero", total/100)
+	c.Require("counter_inputs_zero_and_satisfying_at_monitor", total/400)
+	c.Require("counter_inputs_nonzero_satisfying_at_monitor", total/100)
+	c.Require("dv_inputs_nonzero_at_creation", total/50)
+	c.Require("dset_sources_nonempty_at_attach", total/50)
+	c.Require("ss_weights_nonzero_at_add", total/50)
 }
 
 func main() { vf.Main("C14", "exploration", run, child) }
